@@ -202,7 +202,7 @@ def run_kani(overlay, filters, jobs=None, harness_timeout=None, total_timeout=36
     if extra:
         cmd += extra
     env = {"CARGO_NET_OFFLINE": "true", "CARGO_TERM_COLOR": "never"}
-    rc, out, err, wall = common.run(cmd, cwd=overlay, env=env, timeout=total_timeout)
+    rc, out, err, wall = common.run(cmd, cwd=overlay, env=env, timeout=total_timeout, mem_gb=float(os.environ.get("VERIF_CBMC_MEM_GB", "24")))
     text = out + "\n" + err
     return parse_output(text), text, wall, rc, " ".join(cmd)
 
